@@ -5,6 +5,7 @@ package gen
 import (
 	"fmt"
 	"math/rand/v2"
+	"path/filepath"
 	"strings"
 	"syscall"
 
@@ -136,6 +137,9 @@ func (g *G) Path() string {
 // spell optionally turns an absolute clean path into a relative or unclean spelling of the same path.
 func (g *G) spell(p string) string {
 	if p == "" || !strings.HasPrefix(p, "/") {
+		if p != "" && g.Unclean && g.R.IntN(8) == 0 {
+			return Unclean(g.R, p)
+		}
 		return p
 	}
 	if g.Chdir && g.R.IntN(6) == 0 {
@@ -184,6 +188,9 @@ func relTo(cwd, p string) (string, bool) {
 func Unclean(r *rand.Rand, p string) string {
 	if p == "/" {
 		return []string{"//", "/.", "/..", "/./"}[r.IntN(4)]
+	}
+	if !strings.HasPrefix(p, "/") {
+		return []string{"./" + p, p + "/", "zz/../" + p}[r.IntN(3)]
 	}
 	parts := strings.Split(p, "/")
 	i := 1 + r.IntN(len(parts)-1)
@@ -278,7 +285,8 @@ func (g *G) safe(p string) bool {
 	if !g.AvoidRootOps {
 		return true
 	}
-	return p != "/" && p != "" && p != "." && p != ".." && !strings.HasPrefix(p, "/.") && p != "//" && !strings.HasPrefix(p, "../")
+	cl := filepath.Clean(p)
+	return p != "" && cl != "/" && cl != "." && cl != ".." && !strings.HasPrefix(cl, "../")
 }
 
 // FileOp draws a call on one of the handle slots 0..2 (or an OpenFile that fills a slot).
